@@ -24,4 +24,6 @@ PROPS = {
     },
 }
 
+PROPS["S00"] = {"groups": [{"run": "^vpH_S00_"}], "level_text": "engine smoke test", "level_note": ""}
+
 NOT_APPLICABLE = {}
